@@ -66,7 +66,11 @@ SIMPLER_CLASS = {
     "OtherTwoEnded": "DirectedEdge",
     "SubVertex": "Vertex",
     "FalsyVertex": "Vertex",
+    "SlottedVertex": "Vertex",
     "SubUniverse": "Universe",
+    "FalsyUniverse": "Universe",
+    "RenamedDirected": "DirectedEdge",
+    "FalsyClassEdge": "UnDirectedEdge",
 }
 
 
